@@ -482,7 +482,11 @@ def judgeDRL (W N n : Nat) (body : List String) : List String :=
     ["viol drl/fifo/forwarded-out-of-arrival-order"]
   else if a.seq && !drlWindowOK W N (fwd.map (fun f => arrOf f.2.1)) then
     -- trigger: is the excess explained by requests that arrived exactly on a window boundary `k·W`?
-    if drlWindowOK W N ((fwd.map (fun f => arrOf f.2.1)).filter (fun t => t % W != 0)) then
+    -- (and does the over-full window also hold a forward that arrived strictly inside it?  a burst sitting
+    -- entirely on one boundary instant is an ordinary over-admission)
+    let fa := fwd.map (fun f => arrOf f.2.1)
+    if drlWindowOK W N (fa.filter (fun t => t % W != 0)) &&
+        (fa.filter (fun t => decide (N < cntWin W (t / W) fa))).any (fun t => t % W != 0) then
       ["viol drl/window/over-admission-sequential-boundary-arrival"]
     else ["viol drl/window/over-admission-sequential"]
   else ["ok"]
